@@ -178,7 +178,8 @@ def enabled_for(rootname):
 
     def enabled(hist, info):
         last = hist[-1] if hist else None
-        return [op for op in alphabet if op != last]
+        from mxmc.evalfam import prune_noop_flags
+        return [op for op in prune_noop_flags(hist, alphabet) if op != last]
     return enabled
 
 
